@@ -370,6 +370,9 @@ func (im *cronImpl) apply(o cronOp, hi int64) (cronObs, error) {
 
 // ---- generator ----
 
+// cronScripts are corpus cases that run first on every run.
+var cronScripts = []string{"F1-create-while-running", "F2-delete-recreate"}
+
 var cronExprPool = [][]string{
 	// minute-scale
 	{"* * * * *", "*/2 * * * *", "*/5 * * * *", "1-59/7 * * * *", "H/5 * * * *", "H/3 * * * *", "0,15,30,45 * * * *", "7,37 * * * *", "*/10 * * * * *", "0 */4 * * * * *"},
@@ -449,6 +452,10 @@ func runCron(ctx *RunCtx) *Result {
 	var timeouts int
 	for i := 0; i < ctx.N; i++ {
 		c := p.Fork()
+		script := ""
+		if i < len(cronScripts) {
+			script = cronScripts[i]
+		}
 		g := &cronGen{p: c, tzs: tzs}
 		g.density = []int{0, 0, 0, 1, 1, 2}[c.Intn(6)]
 		// config
@@ -517,134 +524,173 @@ func runCron(ctx *RunCtx) *Result {
 			cs.Obs = append(cs.Obs, obs)
 			return true
 		}
-		// population before start
-		npop := 1 + c.Intn(5)
-		if c.Chance(1, 10) {
-			npop = 10 + c.Intn(30)
-		}
-		now := g.t0*nsPerSec + Pick(c, []int64{0, 0, 1, 500000000, 999999999})
-		for j := 0; j < npop; j++ {
-			name := fmt.Sprintf("jc%d", nextKey)
-			if c.Chance(1, 5) {
-				name = fmt.Sprintf("jc.%d-x", nextKey)
+		if script != "" {
+			// scripted corpus case (known findings are reproduced from these)
+			g.density = 0
+			g.cfg = cronCfg{MaxDowntime: 300, DefaultLoc: time.UTC}
+			g.t0 = 1612843200
+			g.lo, g.hi = g.t0-4000, g.t0+7260
+			cs = cronCase{Cfg: g.cfg, Horizon: [2]int64{g.lo, g.hi}}
+			im = newCronImpl(g.cfg)
+			mk := func(name string, key int64, uid string, expr string) *jcVersion {
+				return &jcVersion{Name: name, Key: key, UID: uid, HasSchedule: true, HasCron: true, Exprs: []string{expr}, Tz: tzChoice{"UTC", time.UTC}}
 			}
-			v := g.genVersion(name, nextKey, newUID(), g.t0)
-			nextKey++
-			if addOp(cronOp{Kind: "create", JC: v}) {
-				live[name] = v
-				names = append(names, name)
+			t := g.t0 * nsPerSec
+			switch script {
+			case "F1-create-while-running":
+				addOp(cronOp{Kind: "create", JC: mk("a", 1, "u1", "* * * * *")})
+				addOp(cronOp{Kind: "init", Now: t + 10*nsPerSec})
+				addOp(cronOp{Kind: "tick", Now: t + 11*nsPerSec})
+				addOp(cronOp{Kind: "create", JC: mk("b", 2, "u2", "* * * * *")})
+				addOp(cronOp{Kind: "deliver"})
+				addOp(cronOp{Kind: "tick", Now: t + 61*nsPerSec})
+				addOp(cronOp{Kind: "tick", Now: t + 121*nsPerSec})
+			case "F2-delete-recreate":
+				addOp(cronOp{Kind: "create", JC: mk("a", 1, "u1", "5 * * * *")})
+				addOp(cronOp{Kind: "init", Now: t + 10*nsPerSec})
+				addOp(cronOp{Kind: "tick", Now: t + 11*nsPerSec})
+				addOp(cronOp{Kind: "delete", Name: "a", Key: 1})
+				addOp(cronOp{Kind: "deliver"})
+				addOp(cronOp{Kind: "create", JC: mk("a", 1, "u2", "40 * * * *")})
+				addOp(cronOp{Kind: "deliver"})
+				addOp(cronOp{Kind: "tick", Now: t + 12*nsPerSec})
+				addOp(cronOp{Kind: "tick", Now: t + 301*nsPerSec})
+				addOp(cronOp{Kind: "tick", Now: t + 2401*nsPerSec})
 			}
+			res.Count("scripted")
+			goto emit
 		}
-		addOp(cronOp{Kind: "init", Now: now})
-		nops := 10 + c.Intn(30)
-		if g.density == 2 {
-			nops = 8 + c.Intn(12)
-		}
-		for j := 0; j < nops; j++ {
-			switch k := c.Intn(20); {
-			case k < 11: // tick
-				adv := Pick(c, []int64{1, 1, 1, 1, 2, 3, 10, 59, 60, 61, 300, 900})
-				if g.density == 1 && c.Chance(1, 3) {
-					adv = Pick(c, []int64{1800, 3600, 3000})
-				}
-				if g.density == 2 {
-					adv = Pick(c, []int64{1, 1, 1, 1, 2, 3, 5, 7, 12, 30})
-				}
-				if (now/nsPerSec)+adv > g.hi-30 {
-					adv = 0
-				}
-				now = ((now/nsPerSec)+adv)*nsPerSec + Pick(c, []int64{0, 0, 1, 250000000, 999999999})
-				res.Count("tick")
-				top := cronOp{Kind: "tick", Now: now}
-				if c.Chance(1, 6) {
-					// the controller clock keeps running while Work() executes
-					step := Pick(c, []int64{1, 1000000, 400000000, 1000000000})
-					for r := int64(1); r <= 60; r++ {
-						top.Readings = append(top.Readings, now+r*step)
-					}
-					res.Count("tick-clock-advances-during-work")
-				}
-				addOp(top)
-			case k < 14: // update
-				if len(names) == 0 {
-					continue
-				}
-				name := Pick(c, names)
-				old, ok := live[name]
-				if !ok {
-					continue
-				}
-				var nv *jcVersion
-				switch c.Intn(6) {
-				case 0: // status-only change
-					cp := *old
-					cp.Ls = g.around(now / nsPerSec)
-					nv = &cp
-					res.Count("update-status")
-				case 1: // toggle disabled
-					cp := *old
-					cp.Disabled = !cp.Disabled
-					nv = &cp
-					res.Count("update-toggle")
-				case 2: // webhook-like: new schedule with lastUpdated = now
-					nv = g.genVersion(name, old.Key, old.UID, now/nsPerSec)
-					s := now / nsPerSec
-					nv.Lu = &s
-					nv.Ls = old.Ls
-					res.Count("update-schedule-stamped")
-				default:
-					nv = g.genVersion(name, old.Key, old.UID, now/nsPerSec)
-					nv.Ls = old.Ls
-					res.Count("update-schedule")
-				}
-				if addOp(cronOp{Kind: "update", JC: nv, Changed: scheduleChanged(old, nv)}) {
-					live[name] = nv
-				}
-			case k < 15: // delete
-				if len(names) == 0 {
-					continue
-				}
-				name := Pick(c, names)
-				if v, ok := live[name]; ok {
-					res.Count("delete")
-					addOp(cronOp{Kind: "delete", Name: name, Key: v.Key})
-					delete(live, name)
-				}
-			case k < 16: // create (new or re-create)
+		{
+			// population before start
+			npop := 1 + c.Intn(5)
+			if c.Chance(1, 10) {
+				npop = 10 + c.Intn(30)
+			}
+			now := g.t0*nsPerSec + Pick(c, []int64{0, 0, 1, 500000000, 999999999})
+			for j := 0; j < npop; j++ {
 				name := fmt.Sprintf("jc%d", nextKey)
-				key := nextKey
-				if c.Chance(1, 2) && len(names) > 0 {
-					name = Pick(c, names)
-					if _, ok := live[name]; ok {
-						continue
-					}
-					key = im.names[name]
-					res.Count("recreate")
-				} else {
-					nextKey++
-					names = append(names, name)
-					res.Count("create-late")
+				if c.Chance(1, 5) {
+					name = fmt.Sprintf("jc.%d-x", nextKey)
 				}
-				v := g.genVersion(name, key, newUID(), now/nsPerSec)
+				v := g.genVersion(name, nextKey, newUID(), g.t0)
+				nextKey++
 				if addOp(cronOp{Kind: "create", JC: v}) {
 					live[name] = v
+					names = append(names, name)
 				}
-			case k < 19:
-				res.Count("deliver")
-				addOp(cronOp{Kind: "deliver"})
-			default: // restart
-				adv := Pick(c, []int64{0, 1, 30, 299, 300, 301, 900})
-				if g.density == 2 {
-					adv = Pick(c, []int64{0, 1, 29, 30, 31, 59, 60, 61})
+			}
+			addOp(cronOp{Kind: "init", Now: now})
+			nops := 10 + c.Intn(30)
+			if g.density == 2 {
+				nops = 8 + c.Intn(12)
+			}
+			for j := 0; j < nops; j++ {
+				switch k := c.Intn(20); {
+				case k < 11: // tick
+					adv := Pick(c, []int64{1, 1, 1, 1, 2, 3, 10, 59, 60, 61, 300, 900})
+					if g.density == 1 && c.Chance(1, 3) {
+						adv = Pick(c, []int64{1800, 3600, 3000})
+					}
+					if g.density == 2 {
+						adv = Pick(c, []int64{1, 1, 1, 1, 2, 3, 5, 7, 12, 30})
+					}
+					if (now/nsPerSec)+adv > g.hi-30 {
+						adv = 0
+					}
+					now = ((now/nsPerSec)+adv)*nsPerSec + Pick(c, []int64{0, 0, 1, 250000000, 999999999})
+					res.Count("tick")
+					top := cronOp{Kind: "tick", Now: now}
+					if c.Chance(1, 6) {
+						// the controller clock keeps running while Work() executes
+						step := Pick(c, []int64{1, 1000000, 400000000, 1000000000})
+						for r := int64(1); r <= 60; r++ {
+							top.Readings = append(top.Readings, now+r*step)
+						}
+						res.Count("tick-clock-advances-during-work")
+					}
+					addOp(top)
+				case k < 14: // update
+					if len(names) == 0 {
+						continue
+					}
+					name := Pick(c, names)
+					old, ok := live[name]
+					if !ok {
+						continue
+					}
+					var nv *jcVersion
+					switch c.Intn(6) {
+					case 0: // status-only change
+						cp := *old
+						cp.Ls = g.around(now / nsPerSec)
+						nv = &cp
+						res.Count("update-status")
+					case 1: // toggle disabled
+						cp := *old
+						cp.Disabled = !cp.Disabled
+						nv = &cp
+						res.Count("update-toggle")
+					case 2: // webhook-like: new schedule with lastUpdated = now
+						nv = g.genVersion(name, old.Key, old.UID, now/nsPerSec)
+						s := now / nsPerSec
+						nv.Lu = &s
+						nv.Ls = old.Ls
+						res.Count("update-schedule-stamped")
+					default:
+						nv = g.genVersion(name, old.Key, old.UID, now/nsPerSec)
+						nv.Ls = old.Ls
+						res.Count("update-schedule")
+					}
+					if addOp(cronOp{Kind: "update", JC: nv, Changed: scheduleChanged(old, nv)}) {
+						live[name] = nv
+					}
+				case k < 15: // delete
+					if len(names) == 0 {
+						continue
+					}
+					name := Pick(c, names)
+					if v, ok := live[name]; ok {
+						res.Count("delete")
+						addOp(cronOp{Kind: "delete", Name: name, Key: v.Key})
+						delete(live, name)
+					}
+				case k < 16: // create (new or re-create)
+					name := fmt.Sprintf("jc%d", nextKey)
+					key := nextKey
+					if c.Chance(1, 2) && len(names) > 0 {
+						name = Pick(c, names)
+						if _, ok := live[name]; ok {
+							continue
+						}
+						key = im.names[name]
+						res.Count("recreate")
+					} else {
+						nextKey++
+						names = append(names, name)
+						res.Count("create-late")
+					}
+					v := g.genVersion(name, key, newUID(), now/nsPerSec)
+					if addOp(cronOp{Kind: "create", JC: v}) {
+						live[name] = v
+					}
+				case k < 19:
+					res.Count("deliver")
+					addOp(cronOp{Kind: "deliver"})
+				default: // restart
+					adv := Pick(c, []int64{0, 1, 30, 299, 300, 301, 900})
+					if g.density == 2 {
+						adv = Pick(c, []int64{0, 1, 29, 30, 31, 59, 60, 61})
+					}
+					if (now/nsPerSec)+adv > g.hi-30 {
+						adv = 0
+					}
+					now = ((now/nsPerSec)+adv)*nsPerSec + Pick(c, []int64{0, 1, 999999999})
+					res.Count("restart")
+					addOp(cronOp{Kind: "init", Now: now})
 				}
-				if (now/nsPerSec)+adv > g.hi-30 {
-					adv = 0
-				}
-				now = ((now/nsPerSec)+adv)*nsPerSec + Pick(c, []int64{0, 1, 999999999})
-				res.Count("restart")
-				addOp(cronOp{Kind: "init", Now: now})
 			}
 		}
+	emit:
 		// Coq term
 		var ops, obs []string
 		for _, o := range cs.Ops {
@@ -756,6 +802,7 @@ type cronKeyState struct {
 	v        *jcVersion // version the schedule is based on (nil: not scheduled)
 	basis    int64
 	inflight int
+	ticks    int    // ticks judged since the basis was set
 	how      string // how the key got its current basis: "start", "flush", "create", "recreate"
 }
 
@@ -789,7 +836,7 @@ func cronMonitor(res *Result, cs *cronCase) {
 			s = &cronKeyState{}
 			st[k] = s
 		}
-		s.v, s.basis, s.how = v, basis, how
+		s.v, s.basis, s.how, s.ticks = v, basis, how, 0
 	}
 	for i, o := range cs.Ops {
 		switch o.Kind {
@@ -914,7 +961,10 @@ func cronMonitor(res *Result, cs *cronCase) {
 					prop, sig := classifyCron(s, api[k], want, got[k], everDeleted[k])
 					hit(prop, sig, fmt.Sprintf("op %d (tick at %d): key %d (%s at basis %d): expected requests %v, implementation requested %v", i, now, k, s.how, s.basis, want, got[k]))
 				}
-				s.basis = maxI(s.basis, now)
+				if now > s.basis {
+					s.basis = now
+					s.ticks++ // the start reference has been passed: from here on it is steady state
+				}
 			}
 		}
 	}
@@ -973,6 +1023,13 @@ func classifyCron(s *cronKeyState, cur *jcVersion, want, got []int64, wasDeleted
 		}
 		return "C03", "C03/missed-after-change"
 	default: // start
+		if s.ticks == 0 {
+			// judged against the start reference itself: the catch-up rule of C04
+			if len(extra) > 0 {
+				return "C04", "C04/first-tick-unexpected-request"
+			}
+			return "C04", "C04/first-tick-missed"
+		}
 		if len(extra) > 0 {
 			return "C01", "C01/unexpected-request"
 		}
